@@ -10,7 +10,7 @@ K4 == {"T1.A.1", "T2.A.1", "T1.B.1", "T1.A.2"}
 K3 == {"T1.A.1", "T2.A.1", "T1.A.2"}
 K2 == {"T1.A.1", "T2.A.1"}
 (* vacuity witnesses: each must be VIOLATED (reachable) *)
-NeverOldAnswer  == ~(nans > 0 /\ ~last.isnew)
+NeverOldAnswer  == rep # "old"
 NeverOrphanBlob == ~(\E n \in DOMAIN blobs : n \notin Range(prime) /\ ~up)
-NeverLostRecord == ~(~up /\ ncrash > 0 /\ nans > 0 /\ last.k \notin DOMAIN dprime)
+NeverLostRecord == ~(~up /\ nev > 0 /\ \E n \in DOMAIN blobs : n \notin Range(dprime))
 =============================================================================
